@@ -14,34 +14,34 @@ OTHER_NOTE = ("Level 'other': a repository-specific static analysis decides the 
 CLAIMS = {
  "C01": ("other",
   "type-switch exhaustiveness, precedence-table agreement with the parser's grammar, save/restore must-pass-through on the CFG, structural recursion of the side-effect predicate, guard-domination of global-name tests, dead-test detection, escape tables",
-  "Decides seven structural necessary conditions of JS behaviour preservation (R01.1-R01.7, DESIGN.md §4 C01): printer exhaustiveness over the parser's node types, "
+  "Decides twelve structural necessary conditions of JS behaviour preservation (R01.1-R01.12, DESIGN.md §4 C01): printer exhaustiveness over the parser's node types, "
   "operator precedence tables vs the grammar extracted from the parser and ECMA-262, restoration of printer context flags on all paths, recursion of hasSideEffects into every "
-  "evaluated operand, global names only assumed when undeclared, consistency of string-literal length tests, regexp escape tables. Does not decide the correctness of the algebraic rewrites.",
+  "evaluated operand, global names only assumed when undeclared, consistency of string-literal length tests, regexp escape tables, every AST slot printed at its grammar level, BigInt literals keep their suffix and bypass number shortening, string merging only across additions, function bodies isolate the for-init flag, parameters with effectful defaults are kept. Does not decide the correctness of the algebraic rewrites.",
   OTHER_NOTE, "DESIGN.md §4 C01"),
  "C02": ("other",
   "worlds (correlated-branch) must-pass-through search on the CFG, truth tables over guard atoms, SSA store enumeration, constant tables",
-  "Decides six structural necessary conditions of capture-free renaming (R02.1-R02.6, DESIGN.md §4 C02): every printed scope is renamed first on all feasible paths; the rename switch implies "
+  "Decides eight structural necessary conditions of capture-free renaming (R02.1-R02.8, DESIGN.md §4 C02): every printed scope is renamed first on all feasible paths; the rename switch implies "
   "¬HasWith ∧ ¬KeepVarNames; every generated name passes isReserved, which consults all keywords and all undeclared variables; only renameScope writes identifier names and never the "
-  "program scope, labels, property or import/export names; hoisted names are registered in intermediate scopes; the name alphabets are valid and duplicate-free.",
+  "program scope, labels, property or import/export names; hoisted names are registered in intermediate scopes; the name alphabets are valid and duplicate-free; statement lists are optimized before their scope is renamed; the rename switch is restored on all paths.",
   OTHER_NOTE, "DESIGN.md §4 C02"),
  "C03": ("other",
   "reachability under stipulated state (raw text / pre) on the CFG, finite-domain evaluation of end-tag-omission guards over token kind × trait bits, subset checks against the HTML optional-tag lists, must-pass-through for the quoting routine",
-  "Decides three local clauses (R03.1-R03.3, DESIGN.md §4 C03): text inside raw-text elements and pre is never whitespace/entity rewritten; no end tag is omitted on the strength of an element the minifier has no traits for, and unconditional omissions stay within the standard's optional-tag lists; "
-  "every attribute value passes html.EscapeAttrVal. The trait tables are decided under C17. Whitespace significance per document, optional-tag inference in every context and `</script` inside script text are not decided.",
+  "Decides four local clauses (R03.1-R03.4, DESIGN.md §4 C03): text inside raw-text elements and pre is never whitespace/entity rewritten; no end tag is omitted on the strength of an element the minifier has no traits for, and unconditional omissions stay within the standard's optional-tag lists; "
+  "every attribute value passes html.EscapeAttrVal; the end-tag look-ahead only skips tokens that leave no trace in the output. The trait tables are decided under C17. Whitespace significance per document, optional-tag inference in every context and `</script` inside script text are not decided.",
   OTHER_NOTE, "DESIGN.md §4 C03"),
  "C04": ("other",
   "must-pass-through with a stipulated flag on the CFG of the declaration writer, default-clause and write-every-element checks",
-  "Decides two structural clauses only (R04.1, R04.2, DESIGN.md §4 C04): a stripped `!important` is written back on every path; unknown grammar elements, declarations with a parse error and value lists the minifier declines are passed through token by token. "
+  "Decides three structural clauses only (R04.1-R04.3, DESIGN.md §4 C04): a stripped `!important` is written back on every path; unknown grammar elements, declarations with a parse error and value lists the minifier declines are passed through token by token; first-byte tests against a non-zero digit are confined to one-byte numbers. "
   "Equivalence of numbers, colours, shorthands, unicode-range and background-position rewrites is semantic and NOT decided (tables: C17).",
   OTHER_NOTE, "DESIGN.md §4 C04"),
  "C05": ("other",
   "must-pass-through on the CFG of the path emitter, guard classification and constant evaluation of (attribute, value) pairs in the attribute-dropping conditions",
-  "Decides (R05.1-R05.3, DESIGN.md §4 C05): emitting command bytes always updates the last-command state; an attribute is only dropped when already removed, when it carries a documented SVG default, or when it has a non-functional namespace prefix (xlink/xml exempt); "
-  "elements are dropped only under the enumerated guards. One known finding (xml:space=\"preserve\" removed). Path geometry, lengths and colours (numeric) are not decided.",
+  "Decides (R05.1-R05.4, DESIGN.md §4 C05): emitting command bytes always updates the last-command state; an attribute is only dropped when already removed, when it carries a documented SVG default, or when it has a non-functional namespace prefix (xlink/xml exempt); "
+  "elements are dropped only under the enumerated guards; decoded character references are re-escaped (no bare < or &). The attribute-dropping condition is evaluated over the finite domain element × attribute × value against the SVG defaults. One known finding (xml:space=\"preserve\" removed). Path geometry, lengths and colours (numeric) are not decided.",
   OTHER_NOTE, "DESIGN.md §4 C05"),
  "C06": ("other",
   "token-switch exhaustiveness against the lexer's constants, write-on-all-paths rule on the CFG, reachability under the assumed option",
-  "Decides (R06.1-R06.3, DESIGN.md §4 C06): every XML token type except comments has a case that writes on all paths (only the empty CDATA section is skipped); with KeepWhitespace the tag-adjacent trim is unreachable, omitSpace is reset after start/end tags, and no whitespace-only text is singled out for dropping. "
+  "Decides (R06.1-R06.4, DESIGN.md §4 C06): every XML token type except comments has a case that writes on all paths (only the empty CDATA section is skipped); with KeepWhitespace the tag-adjacent trim is unreachable, omitSpace is reset after start/end tags, and no whitespace-only text is singled out for dropping; decoded character references are re-escaped in text and attribute values. "
   "Entity/CDATA byte round trips and word joining across comments are not decided.",
   OTHER_NOTE, "DESIGN.md §4 C06"),
  "C07": ("other",
@@ -56,18 +56,18 @@ CLAIMS = {
   OTHER_NOTE, "DESIGN.md §4 C08"),
  "C09": ("other",
   "must-pass-through rule on the CFG of the JS statement printer per statement kind",
-  "Decides only the statement-terminator discipline (R09.1, DESIGN.md §4 C09): every `;`-terminated statement kind and every class field requests its semicolon on all paths after emitting, so that adjacent statements cannot be glued together. "
+  "Decides three printer disciplines (R09.1, R09.3, R09.4, DESIGN.md §4 C09): every `;`-terminated statement kind and every class field requests its semicolon on all paths after emitting, so that adjacent statements cannot be glued together; BigInt literals never pass through exponent-capable number shortening; a property name after a number is only written behind the trailing-digit test. "
   "Validity of the output of the six minifiers in general, re-acceptance, and the keyword-separation typestate (R09.2, evaluated and dropped) are NOT decided.",
   OTHER_NOTE, "DESIGN.md §4 C09"),
  "C10": ("other",
   "SSA provenance of the reader argument, error-edge return analysis, limit-guard domination on the CFG",
-  "Decides two structural clauses (R10.1, R10.2, DESIGN.md §4 C10): the byte/string helpers return their own parameter on error and never hand its backing array to an in-place minifier; every documented resource limit "
-  "(CSS nesting, CSS value count, SVG path length, JS string merge, JS var hoisting) is checked before the guarded region and its exceeded outcome leaves at once. Absence of panics, bounded recursion in general and linear time are NOT decided.",
+  "Decides three structural clauses (R10.1-R10.3, DESIGN.md §4 C10): the byte/string helpers return their own parameter on error and never hand its backing array to an in-place minifier; every documented resource limit "
+  "(CSS nesting, CSS value count, SVG path length, JS string merge, JS var hoisting) is checked before the guarded region and its exceeded outcome leaves at once; every constant-index access that is dominated by a length test of the same slice is consistent with the strongest such test (134 accesses). Absence of panics, bounded recursion in general and linear time are NOT decided.",
   OTHER_NOTE, "DESIGN.md §4 C10"),
  "C11": ("other",
   "call-site enumeration with resolved callees, error-discipline path rules on the CFG, constant evaluation of params / media type arguments, source classification (attribute vs element)",
-  "Decides, for every call from a minifier into the registry (R11.1-R11.3, DESIGN.md §4 C11): the error is bound, other errors leave through UpdateErrorPosition with the outer input and the token offset, ErrNotExist leaves the embedded bytes unchanged and scratch output is consumed only on success; "
-  "inline params exactly for attribute contexts; documented default media types per element. One known finding (DataURI discards the error). Re-escaping for the host syntax is not covered.",
+  "Decides, for every call from a minifier into the registry (R11.1-R11.5, DESIGN.md §4 C11): the error is bound, other errors leave through UpdateErrorPosition with the outer input and the token offset, ErrNotExist leaves the embedded bytes unchanged and scratch output is consumed only on success; "
+  "inline params exactly for attribute contexts; documented default media types per element; the type attribute is recorded before it can be skipped; the data-URI payload minifier is looked up under the media type as parsed. One known finding (DataURI discards the error). Re-escaping for the host syntax is not covered.",
   OTHER_NOTE, "DESIGN.md §4 C11"),
  "C12": ("other",
   "use-enumeration of the reader parameter (whole-stream hand-off), call routing, ordering/domination rules on the CFG of the pipe wrappers and the response writer",
@@ -77,9 +77,9 @@ CLAIMS = {
   OTHER_NOTE, "DESIGN.md §4 C12"),
  "C13": ("other",
   "SSA store/provenance enumeration, interprocedural may-write effect summaries (fixpoint), lock domination on the CFG, VTA call-graph reachability, determinism lints",
-  "Decides the structural ways the shared registry could race or become nondeterministic (R13.1-R13.5, DESIGN.md §4 C13): option structs are only written through fresh copies; shallow struct copies are not written through shared reference fields; "
+  "Decides the structural ways the shared registry could race or become nondeterministic (R13.1-R13.6, DESIGN.md §4 C13): option structs are only written through fresh copies; shallow struct copies are not written through shared reference fields; "
   "no package-level state is stored to outside init and no package-level slice is handed to a parameter that may be written through; registry fields are only accessed under the mutex and no registrar is reachable from a minifier; "
-  "package-level append bases always reallocate; no map-order, clock, random or environment dependence. Flows of package-level slices through struct fields, and real schedules, are not covered.",
+  "package-level append bases always reallocate; no map-order, clock, random or environment dependence; objects given back to a sync.Pool do not escape and no other stateful package-level variable exists. Flows of package-level slices through struct fields, and real schedules, are not covered.",
   OTHER_NOTE, "DESIGN.md §4 C13"),
  "C14": ("other",
   "must-pass-through and domination rules on the CFG of the six Minify methods and of the pipe wrappers",
@@ -107,13 +107,13 @@ CLAIMS = {
   "DESIGN.md §4 C17"),
  "C19": ("other",
   "path rules on the CFG of cmd/minify (fallback rebinding, loop-exit and counter rules), provenance classification of path arguments of mutating os calls, writer/reader agreement of the backup name",
-  "Decides (R19.1-R19.5, DESIGN.md §4 C19): a failed minification writes the original bytes and reports failure; task loops never stop early, failures are counted, summed over workers and decide the exit status; only destinations and backups are ever mutated; "
-  "the JS bundle separator is confined to the JS media type; the overwrite backup is created under the name it is later removed by. Destination computation over directory trees, sync copying and watch mode are not decided.",
+  "Decides (R19.1-R19.7, DESIGN.md §4 C19): a failed minification writes the original bytes and reports failure; task loops never stop early, failures are counted, summed over workers and decide the exit status; only destinations and backups are ever mutated; "
+  "the JS bundle separator is confined to the JS media type; the overwrite backup is created under the name it is later removed by; a failed write of the destination fails the task; the overwrite detection follows symbolic links like the open does. Destination computation over directory trees, sync copying and watch mode are not decided.",
   OTHER_NOTE, "DESIGN.md §4 C19"),
  "C20": ("other",
   "ordering / domination / must-pass-through rules on the CFG of cmd/minify.minify (function literals attributed to their try.Do call site), provenance classification of mutated paths",
-  "Decides the ordering invariant behind kill-safety (R20.1-R20.5, DESIGN.md §4 C20): backup rename (error tested) before the only truncating open, inputs opened before the output, backup removed only after Close and only when the copy's own error is nil, otherwise restored; "
-  "every mutating os call targets the destination or the backup; the backup's creation name equals its recognition name. Kill points are prefixes of this one function's call sequence; power loss (fsync) is out of scope of the property.",
+  "Decides the ordering invariant behind kill-safety (R20.1-R20.6, DESIGN.md §4 C20): backup rename (error tested) before the only truncating open, inputs opened before the output, backup removed only after Close and only when the copy's own error is nil, otherwise restored; "
+  "every mutating os call targets the destination or the backup; the backup's creation name equals its recognition name; file identity is tested after following links. Kill points are prefixes of this one function's call sequence; power loss (fsync) is out of scope of the property.",
   OTHER_NOTE, "DESIGN.md §4 C20"),
 }
 
